@@ -132,6 +132,7 @@ package helper
 //@ func NewRing
 //@ requires size >= 1
 //@ ensures[C17] rwf(result) && rsize(result) == 0 && len(result.buffer) == size && result.empty
+//@ ensures[C17] forall p :: 0 <= p && p < size ==> result.buffer[p] == zero(result.buffer[p])
 
 //@ func Ring.Put
 //@ requires rwf(r)
